@@ -149,9 +149,15 @@ fn launch_analysis_thread(analyzer: Arc<Mutex<Analyzer>>, doc: a2kit::lang::Docu
         },
         _ => Vec::new()
     };
+    #[cfg(a2kit_verif)]
+    let verif_id = a2kit::verif_hooks::launch(Arc::strong_count(&analyzer)==1, doc.uri.as_str(), doc.version);
     std::thread::spawn( move || {
+        #[cfg(a2kit_verif)]
+        let _verif_thread = a2kit::verif_hooks::enter(verif_id, doc.version);
         match analyzer.lock() {
             Ok(mut analyzer) => {
+                #[cfg(a2kit_verif)]
+                let _verif_lock = a2kit::verif_hooks::acquired(verif_id, doc.version);
                 let forced = match ws_scan {
                     WorkspaceScanMethod::None => false,
                     WorkspaceScanMethod::UseCheckpoints => {
@@ -356,6 +362,8 @@ fn main() -> Result<(), Box<dyn Error + Sync + Send>> {
         if let Some(oldest) = tools.thread_handles.front() {
             if oldest.is_finished() {
                 let done = tools.thread_handles.pop_front().unwrap();
+                #[cfg(a2kit_verif)]
+                a2kit::verif_hooks::harvest(done.thread().id());
                 if let Ok(Some(result)) = done.join() {
                     tools.workspace = result.workspace;
                     if let Some(chkpt) = tools.doc_chkpts.get_mut(&result.uri.to_string()) {
@@ -369,6 +377,8 @@ fn main() -> Result<(), Box<dyn Error + Sync + Send>> {
                         tools.highlighter.use_shared_symbols(chkpt.shared_symbols());
                         tools.assembler.use_shared_symbols(chkpt.shared_symbols());
                     }
+                    #[cfg(a2kit_verif)]
+                    a2kit::verif_hooks::publish(result.uri.as_str(), result.version);
                     push_diagnostics(&connection, result.uri, result.version, result.diagnostics);
                     if result.forced {
                         refresh_semantic_highlights(&connection).expect("refresh request failed");
